@@ -85,6 +85,7 @@ def run_concurrent(world, commands, rng=None, choices=None, policy="random", fau
         change_points = {rng.randint(1, 60) for _ in range(rng.randint(0, 3))}
     pending_raw = {}   # conn -> buffer
     stats = {"thread_spawn": 0}
+    progress = [0]     # releases of requests that are NOT waits for a lock (a waiter re-trying is no progress)
 
     def reap():
         for pt in parties.values():
@@ -157,7 +158,7 @@ def run_concurrent(world, commands, rng=None, choices=None, policy="random", fau
                         pt.joiners += 1
                 ack(s)
                 continue
-            pt.parked.append((s, req, steps))
+            pt.parked.append((s, req, progress[0]))
             pt.running = max(0, pt.running - 1)
 
     t_last = time.time()
@@ -191,8 +192,9 @@ def run_concurrent(world, commands, rng=None, choices=None, policy="random", fau
                 stalled = True
                 break
             continue
-        # a request waiting for a lock becomes eligible again once somebody else has moved since it parked
-        parked = [x for x in allreq if point_name(x[2]) != "lock.wait" or x[3] < steps] or allreq
+        # a request waiting for a lock becomes eligible again once somebody who is NOT waiting for a lock has moved since
+        # it parked (two waiters waking each other is not progress: under PCT they would starve the holder)
+        parked = [x for x in allreq if point_name(x[2]) != "lock.wait" or x[3] < progress[0]] or allreq
         if hold:
             # start constraints of the scenario: a party named in `hold` stays parked until another party has been
             # released at a point whose name ends with the given suffix (e.g. its proxied git command)
@@ -257,6 +259,8 @@ def run_concurrent(world, commands, rng=None, choices=None, policy="random", fau
         pt_.running += 1
         pt_.t_news = time.time()
         steps += 1
+        if point_name(req_) != "lock.wait":
+            progress[0] += 1
         t_last = time.time()
     if (stalled or steps >= STEP_CAP) and os.environ.get("GAISIM_SCHED_DEBUG"):
         import sys
